@@ -164,6 +164,8 @@ type hNode struct {
 	parent   *hNode
 	declare  func(c *cli.Cmd)
 	hasOpts  bool
+	// printFromAction: 1 = the Action calls PrintHelp(), 2 = PrintLongHelp() (user code asking for the help text)
+	printFromAction int
 }
 
 func (n *hNode) path() string {
@@ -341,7 +343,14 @@ func genHelpNode(r *rand.Rand, name string, depth int, parent *hNode, version bo
 		if n.hidden {
 			c.Hidden = true // assigned before the subcommands are declared, and only when set
 		}
-		c.Action = func() {}
+		c.Action = func() {
+			switch n.printFromAction {
+			case 1:
+				c.PrintHelp()
+			case 2:
+				c.PrintLongHelp()
+			}
+		}
 		for _, k := range n.kids {
 			k := k
 			c.Command(strings.Join(k.aliases, " "), k.desc, k.declare)
@@ -365,7 +374,7 @@ func init() {
 		Technique: "runtime monitor: the help the real library renders (long help via --help, short help via a usage error) is parsed back and compared with a model of the declarations",
 		Rule: "random command trees (depth<=2) with random declarations per command: option name lists (only long, only short, several of each), descriptions (empty, one line, multi-line, with parentheses and $, padded), " +
 			"environment lists with irregular blanks (one variable actually set, to show that the default displayed is the declared one), defaults of every built-in type incl. the 'empty' ones (false, \"\", empty slices) and 0 / 0.0, HideValue, " +
-			"hidden commands, LongDesc, aliases, a version flag; a random command of the tree is addressed and its help requested with --help (long) or provoked by a usage error (short). " +
+			"hidden commands, LongDesc, aliases, a version flag; a random command of the tree is addressed and its help requested with --help (long), provoked by a usage error (short), or printed by the command's own Action through PrintHelp / PrintLongHelp. " +
 			"Oracle (DESIGN 3.8): usage line = 'Usage: <full path> <trimmed spec, synthesised when none>' + ' COMMAND [arg...]' iff it has subcommands; description (LongDesc for --help when set); sections in the order Arguments, Options, Commands; " +
 			"one row per declared argument / option (first one-letter and first longer name) / non-hidden subcommand (all aliases), in declaration order, each with description, (env $A, $B) iff a list was given, (default V) iff not hidden and V non-empty; nothing else in the sections. " +
 			"Layout (column widths, blank lines) is not judged. non-trivial = help of a command with >=2 declared elements; distinct by (tree, addressed command, kind of help).",
@@ -458,12 +467,18 @@ func runC17(c *core.Ctx) {
 	for n := target; n.parent != nil; n = n.parent {
 		argv = append([]string{n.aliases[r.Intn(len(n.aliases))]}, argv...)
 	}
-	if long {
+	pathLen := len(argv)
+	fromAction := r.Intn(6) == 0
+	switch {
+	case fromAction:
+		// valid invocation (every spec of the generator accepts an empty segment); the Action itself prints the help
+		target.printFromAction = map[bool]int{false: 1, true: 2}[long]
+	case long:
 		argv = append(argv, []string{"--help", "-h"}[r.Intn(2)])
-	} else {
+	default:
 		argv = append(argv, "--definitely-not-declared")
 	}
-	desc := map[string]interface{}{"addressed": target.path(), "argv": argv, "help": map[bool]string{true: "long (--help)", false: "short (usage error)"}[long],
+	desc := map[string]interface{}{"addressed": target.path(), "argv": argv, "help": map[bool]string{true: "long (--help, or PrintLongHelp from the Action)", false: "short (usage error, or PrintHelp from the Action)"}[long],
 		"options": target.opts, "arguments": target.args, "spec": target.spec}
 	c.Journal(desc)
 	os.Setenv("E_SET", "7")
@@ -565,7 +580,10 @@ func runC17(c *core.Ctx) {
 			problems = append(problems, "hidden command "+k.name+" appears in the help")
 		}
 	}
-	if !long && p.errLine == "" {
+	if fromAction {
+		c.Inc("help_printed_from_the_action")
+	}
+	if !long && !fromAction && p.errLine == "" {
 		problems = append(problems, "no error line before the usage of a rejected invocation")
 	}
 	if len(problems) > 0 {
@@ -576,7 +594,7 @@ func runC17(c *core.Ctx) {
 	c.Add("option_rows", len(target.opts))
 	c.Add("argument_rows", len(target.args))
 	c.Add("command_rows", len(expCmds))
-	c.Inc(fmt.Sprintf("depth_%d", len(argv)-1))
+	c.Inc(fmt.Sprintf("depth_%d", pathLen))
 	if c.WantSample() && nel >= 4 {
 		desc["rendered"] = out
 		c.Sample(desc)
